@@ -1,0 +1,51 @@
+//go:build verif
+
+package ocache
+
+import "sort"
+
+// VerifHook, when set, is called at every boundary between two critical
+// sections of the cache (outside of any lock). ch is non-nil when the caller is
+// about to block on that channel. The verification harness parks the calling
+// goroutine inside the hook to control the schedule.
+var VerifHook func(point, id string, ch <-chan struct{})
+
+func verifYield(point, id string) {
+	if h := VerifHook; h != nil {
+		h(point, id, nil)
+	}
+}
+
+func verifWait(point, id string, ch <-chan struct{}) {
+	if h := VerifHook; h != nil {
+		h(point, id, ch)
+	}
+}
+
+// VerifEntry is a read-only view of one cache entry.
+type VerifEntry struct {
+	Id       string
+	State    int // 0 loading, 1 active, 2 closing, 3 closed
+	LoadDone bool
+	Value    Object
+}
+
+// VerifSnapshot returns the closed flag and the entries of the cache sorted by id.
+func VerifSnapshot(c OCache) (closed bool, entries []VerifEntry) {
+	oc := c.(*oCache)
+	oc.mu.Lock()
+	defer oc.mu.Unlock()
+	for id, e := range oc.data {
+		e.mx.Lock()
+		ve := VerifEntry{Id: id, State: int(e.state), Value: e.value}
+		e.mx.Unlock()
+		select {
+		case <-e.load:
+			ve.LoadDone = true
+		default:
+		}
+		entries = append(entries, ve)
+	}
+	sort.Slice(entries, func(i, j int) bool { return entries[i].Id < entries[j].Id })
+	return oc.closed, entries
+}
